@@ -69,6 +69,10 @@ def gen_cases(rng, tier):
     if tier == "thorough":
         cases.append({"kind": "allcols", "model": "DINUC_conditional", "seed": rng.randrange(2**32), "ntips": 3})
         cases.append({"kind": "allcols", "model": "JTT92", "seed": rng.randrange(2**32), "ntips": 2})
+    # compiled-vs-interpreted differential (thorough): the same problems evaluated with NUMBA_DISABLE_JIT=1
+    if tier == "thorough":
+        for _ in range(6):
+            cases.append({"kind": "nojit", "seed": rng.randrange(2**32), "n": 12})
     # discrete-time models: pruning layer only
     for model in ["BH"]:
         for i in range(2 if tier == "quick" else 10):
@@ -241,6 +245,9 @@ def run_case(case):
     if kind == "one":
         decide_problem(res, case["prob"])
         return res
+    if kind == "nojit":
+        run_nojit(res, case)
+        return res
     rng = random.Random(case["seed"])
     model = case["model"]
     if kind == "problems":
@@ -293,6 +300,51 @@ def run_case(case):
     elif kind == "discrete":
         for i in range(case["n"]):
             decide_discrete(res, rng, model)
+    return res
+
+
+def run_nojit(res, case):
+    """the numba kernels compiled (this process) vs run as plain Python (helper process): same lnL, same columns"""
+    import json as _json
+    import os
+    import subprocess
+    import sys
+    import tempfile
+
+    rng = random.Random(case["seed"])
+    probs = []
+    for i in range(case["n"]):
+        model = rng.choice(["HKY85", "GTR", "GN", "TN93_solved", "MG94HKY", "JTT92", "DINUC_conditional"])
+        big = M.kind_of(model) != "nuc"
+        probs.append(M.gen_problem(rng, model, ntips=rng.randint(3, 4 if big else 6), ncols=rng.randint(2, 5 if big else 25), scoped=rng.random() < 0.3, bins=rng.choice([1, 1, 3]) if M.kind_of(model) == "nuc" and model not in M.SOLVED else 1))
+    here = []
+    for p in probs:
+        lf = M.build_lf(p)
+        here.append((float(lf.lnL), np.asarray(lf.get_full_length_likelihoods(), dtype=float)))
+    d = tempfile.mkdtemp(prefix="nojit-", dir=os.getcwd())
+    pin, pout = os.path.join(d, "in.json"), os.path.join(d, "out.json")
+    _json.dump(probs, open(pin, "w"))
+    env = dict(os.environ, NUMBA_DISABLE_JIT="1")
+    env.pop("NUMBA_BOUNDSCHECK", None)
+    root = os.path.dirname(os.path.dirname(os.path.dirname(os.path.abspath(__file__))))
+    env["PYTHONPATH"] = os.pathsep.join([p_ for p_ in (os.environ.get("VERIF_SRC"), root, env.get("PYTHONPATH")) if p_])
+    r = subprocess.run([sys.executable, "-m", "vmon.nojit", pin, pout], env=env, capture_output=True, text=True, timeout=1500)
+    if r.returncode != 0 or not os.path.exists(pout):
+        raise RuntimeError("nojit helper failed: " + r.stderr[-500:])
+    there = _json.load(open(pout))
+    for p, (lnL, cols), o in zip(probs, here, there):
+        res.evals += 1
+        res.count("nojit-differential")
+        rc = {"kind": "one", "prob": p}
+        if "error" in o:
+            res.witness("C02/nojit-differential/interpreted-kernel-raises", model=p["model"], error=o["error"], replay_case=rc)
+            continue
+        if not (close(lnL, o["lnL"], 1e-10, 1e-10) and close(cols, np.array(o["cols"]), 1e-10, 1e-300)):
+            res.witness("C02/nojit-differential/compiled-and-interpreted-kernels-disagree", model=p["model"], compiled=lnL, interpreted=o["lnL"], replay_case=rc)
+        res.sig("nojit", *M.sig_of(p))
+    import shutil
+
+    shutil.rmtree(d, ignore_errors=True)
     return res
 
 
